@@ -49,7 +49,7 @@ class TemplateError(Exception):
     pass
 
 
-ALLOWED_DERIVES = {"Clone", "Copy", "PartialEq", "Eq", "PartialOrd", "Ord", "Hash", "Default"}
+ALLOWED_DERIVES = {"Clone", "Copy", "PartialEq", "Eq", "PartialOrd", "Ord", "Hash", "Default", "Debug"}
 
 _src_cache = {}
 
